@@ -3,9 +3,11 @@ use crate::framework::Scenario;
 
 pub mod common;
 pub mod c14;
+pub mod c16;
+pub mod c17;
 
 pub fn all() -> Vec<&'static dyn Scenario> {
-    vec![&c14::C14]
+    vec![&c14::C14, &c16::C16, &c17::C17]
 }
 
 pub fn find(id: &str) -> Option<&'static dyn Scenario> {
